@@ -6,13 +6,17 @@ PROP = {'gen_tables': ['IoFacts'],
          'CombineWriteSyncers of two sinks, BufferedWriteSyncer over a bare / Locked / zap.Open sink) alone and in a tee with a second branch '
          '(other encoder, other minimum level) × 4 goroutines × every front end (Logger level methods, Log, Check+Write, SugaredLogger w/f/ln, '
          'std-log bridge, zapgrpc, zapio.Writer by newline and by Close, zapslog.Handler, direct Core.Write) at every level it can express; line '
-         'sizes at the buffer boundary on 2/4/8 goroutines; (2) random programs: 1–8 goroutines × 3–40 (thorough ≤ 400) actions {log, With, switch '
-         'to a shared With-child, Logger.Sync, BufferedWriteSyncer.Sync, clock tick, yield} on tees of 1–3 branches (encoders json/console/json2, '
+         'sizes at the buffer boundary on 2/4/8 goroutines; goroutine-local children in every derivation flavour (With, WithLazy with and '
+         'without spare slice capacity, Sugar().WithLazy / With, Named, WithOptions(Fields), Sugar/Desugar round trip) derived concurrently '
+         'from ONE shared never-logged template (base, With, WithLazy with spare capacity, Sugar().WithLazy, lazy-on-lazy) × 2/4/8 goroutines, '
+         'siblings re-derived between entries; (2) random programs: 1–8 goroutines × 3–40 (thorough ≤ 400) actions {log, With, derive (any '
+         'flavour, from the own logger or from the shared template), switch to a shared With-child, Logger.Sync, BufferedWriteSyncer.Sync, clock tick, yield} on tees of 1–3 branches (encoders json/console/json2, '
          'minimum level −1/0/1, buffer 64…1024 and the 256 kB default, sampler in 1/8), message sizes from 0 to 2×buffer, GOMAXPROCS 1–16, '
          'runtime.Gosched inside the sink every 1–3 writes, unsynchronised or field-synchronised recorders; (3) hostile: Sync/tick storms around '
          'lines of 3–5× the buffer on 64-byte and default buffers; (4) 1 500 (thorough 20 000) synthetic histories — random merges, then lost / '
          'duplicated / swapped / byte-interleaved / merged / corrupted lines, writes split, joined or empty — judged by the Go oracle and by the Lean '
-         'predicates. Every program is built with -race, run under a watchdog (re-run alone before a deadlock is reported), drained '
+         'predicates. Every program is built with -race, run under a watchdog (re-run alone before a deadlock is reported; at most 3 '
+         'expiries and 25 process deaths per check run, counted across harness processes, then the rest is skipped), drained '
          '(Logger.Sync, Stop, Close) before judging; expected lines come from replaying each goroutine alone on a fresh logger over private '
          'buffers; the recorded Write calls of every sink are judged by the independent Go merge oracle AND piped to zvdrv (validMerge / '
          'validCalls / validLines), verdicts compared. non-trivial = ≥2 goroutines that log and ≥1 recording sink (histories: ≥1 write); '
